@@ -5,7 +5,7 @@ PROP = {
  'rule': 'history = 2..4 deputies, slot 10 s, 25..45 honest blocks spaced 1 s .. 10 min (spans more than the 30 min tx lifetime) with 1..3 transfers each (standalone or boxed, '
          'lifetimes 0/1/59/60/61/600/1799/1800 s), stable pointer following with lag 0..3 (prunes the replay cache), victim restarts at quiescent points (cache reloaded from disk), '
          'side forks whose tx is later executed on the main fork. After every honest block a byzantine in-turn deputy offers 1..4 blocks replaying a random earlier tx: same bytes, '
-         'extra signature appended, high-s twin, reordered multisig; standalone, inside a box, twice in one block; at chain times from now to the tx\'s expiration (and one second '
+         'extra signature appended, high-s twin, reordered multisig signatures, another sufficient signer subset of a 2-of-3 multisig account; standalone, inside a box, twice in one block; at chain times from now to the tx\'s expiration (and one second '
          'before). Two fixed edge histories replay the first block\'s txs in the last 60 s of their 1800 s life with the stable pointer right behind the head. Oracle: for every accepted '
          'block, no (signing hash, sender) identity is already on its ancestor path or twice in it; block time <= expiration <= block time + 30 min; a fork-only tx is accepted on the '
          'main fork. distinct = (deputies, length, span); non-trivial = history spanning more than 30 min of chain time',
